@@ -2,7 +2,7 @@
    Only the property theorems; the proofs are in Regex.v (language, derivative matcher), Routes.v (route family),
    Dispatch.v (dispatcher, mount points, pool scan), Sites.v (dispatcher of a site), Mapper.v (mapper of a site,
    map_dispatch, mapper_total), Examples.v (a concrete instance satisfying every hypothesis of map_dispatch). *)
-From CppcmsV Require Import Base.Tac C20.Defs C20.Regex C20.Routes C20.Dispatch C20.Sites C20.Mapper C20.Examples.
+From CppcmsV Require Import Base.Tac C20.Defs C20.Regex C20.Routes C20.Dispatch C20.Sites C20.Mapper C20.MapAbs C20.Examples.
 Local Open Scope N_scope.
 
 (* 1. the matcher that models booster::regex::match accepts exactly the whole strings of the language *)
@@ -170,16 +170,33 @@ Theorem site_mapper_generates_page_url : forall root node up pre pg ps hs ov,
 Proof. exact site_data_map. Qed.
 Print Assumptions site_mapper_generates_page_url.
 Theorem map_dispatch_agree : forall root node up pre pg ps vals c,
-  site_wf root -> chain root node up pre -> In pg (site_pages node) -> page_key pg <> [] ->
+  site_wf root -> chain root node up pre -> In pg (site_pages node) ->
   params_okb (page_route pg) ps = true ->
   reach root (pre ++ route_fill (page_route pg) ps) (snd pg) ps ->
   exists url, real_map (build node, up) vals (page_key pg) ps = Ok url /\
               dispatch (build root) url c = Fired (snd pg) ps.
-Proof. exact map_dispatch. Qed.
+Proof. exact map_dispatch_local. Qed.
 Print Assumptions map_dispatch_agree.
-(* full statement (not proved): the same for map_at with every key form (absolute, relative with dot-dot,
-   keyword parameters, empty key of a mounted child) from every node; those key forms are covered by the
-   correspondence harness and the oracle only. *)
+(* key navigation: an absolute key /n1/.../nk/pagekey used on the mapper of ANY node `from` of the site is resolved
+   (topmost, child walk) to the node reached through the mounts n1..nk ... *)
+Theorem mapper_resolves_absolute_key : forall root from upf pref node up pre pg,
+  site_wf root -> chain root from upf pref -> chain root node up pre -> Forall name_ok (map snd up) ->
+  In pg (site_pages node) ->
+  mapper_for_key (build from, upf) (abs_key up (page_key pg)) = Ok ((build node, up), page_key pg, []).
+Proof. exact mapper_for_abs_key. Qed.
+Print Assumptions mapper_resolves_absolute_key.
+(* ... and the url it generates routes, from the root, to that page with exactly the parameters *)
+Theorem map_dispatch_absolute_key : forall root from upf pref node up pre pg ps vals c,
+  site_wf root -> chain root from upf pref -> chain root node up pre -> Forall name_ok (map snd up) ->
+  In pg (site_pages node) -> params_okb (page_route pg) ps = true ->
+  reach root (pre ++ route_fill (page_route pg) ps) (snd pg) ps ->
+  exists url, real_map (build from, upf) vals (abs_key up (page_key pg)) ps = Ok url /\
+              dispatch (build root) url c = Fired (snd pg) ps.
+Proof. exact map_dispatch_abs. Qed.
+Print Assumptions map_dispatch_absolute_key.
+(* full statement (not proved): the same for relative keys with dot / dot-dot components, keyword parameters and the
+   bare path of a mounted child (empty key), and for the tree-position form map_at (loc_of); those forms are modelled,
+   run against the implementation by the correspondence harness and checked by the oracle. *)
 Example map_dispatch_nonvacuous :
   site_wf ex_root /\ chain ex_root ex_leaf ex_up ([47; 99] ++ [47; 100]) /\ In ex_page (site_pages ex_leaf) /\
   page_key ex_page <> [] /\ params_okb (page_route ex_page) ex_ps = true /\
@@ -188,6 +205,12 @@ Example map_dispatch_nonvacuous :
   dispatch (build ex_root) ex_url None = Fired 3 ex_ps /\
   dispatch (build ex_root) [47; 99; 55] None = Fired 5 [[55]].
 Proof. exact map_dispatch_instance. Qed.
+Example map_dispatch_absolute_nonvacuous :
+  Forall name_ok (map snd ex_up) /\ chain ex_root ex_mid [(build ex_root, [99])] ([] ++ [47; 99]) /\
+  abs_key ex_up (page_key ex_page) = [47; 99; 47; 100; 47; 113] /\
+  real_map (build ex_mid, [(build ex_root, [99])]) [] (abs_key ex_up (page_key ex_page)) ex_ps = Ok ex_url /\
+  map_at (build ex_root) [] [0%nat] [47; 99; 47; 100; 47; 113] ex_ps = Ok ex_url.
+Proof. split; [exact ex_names_ok|]. split; [exact ex_chain_mid|]. exact map_dispatch_abs_instance. Qed.
 
 (* 8. mapper_total: an unknown key or a wrong number of parameters is an error, and an error is an exception or the
       fixed marker url, never a partial url *)
